@@ -60,23 +60,35 @@ pub fn render_obo(f: &FactSet, rng: &mut Rng, o: &JaxOpts) -> String {
                 lines.push("created_by: id: someone".to_string());
             }
         }
+        // the canonical OBO tag order puts is_a BEFORE is_obsolete / replaced_by / consider;
+        // half of the stanzas use it, the other half the reverse
+        let mut flag_lines: Vec<String> = Vec::new();
         if t.obsolete {
-            lines.push("is_obsolete: true".to_string());
+            flag_lines.push("is_obsolete: true".to_string());
         } else if o.noise && rng.chance(1, 8) {
-            lines.push("is_obsolete: false".to_string());
+            flag_lines.push("is_obsolete: false".to_string());
         }
         if let Some(r) = t.replaced_by {
-            lines.push(format!("replaced_by: {}", hp(r)));
+            flag_lines.push(format!("replaced_by: {}", hp(r)));
         }
         if o.noise && t.obsolete && rng.chance(1, 2) {
-            lines.push(format!("consider: {}", hp(rng.range(1, 9_999_999) as u32)));
+            flag_lines.push(format!("consider: {}", hp(rng.range(1, 9_999_999) as u32)));
         }
         let mut ps = parents.get(&t.id).cloned().unwrap_or_default();
         if o.shuffle {
             rng.shuffle(&mut ps);
         }
-        for p in ps {
-            lines.push(format!("is_a: {} ! {}", hp(p), names.get(&p).copied().unwrap_or("?")));
+        let isa_lines: Vec<String> = ps.iter().map(|p| format!("is_a: {} ! {}", hp(*p), names.get(p).copied().unwrap_or("?"))).collect();
+        if rng.chance(1, 2) {
+            lines.extend(isa_lines);
+            if o.noise && rng.chance(1, 3) {
+                lines.push("created_by: someone".to_string());
+                lines.push("creation_date: 2012-04-04T02:58:31Z".to_string());
+            }
+            lines.extend(flag_lines);
+        } else {
+            lines.extend(flag_lines);
+            lines.extend(isa_lines);
         }
         for l in lines {
             s.push_str(&l);
